@@ -704,7 +704,12 @@ lyplg_type_check_hints(uint32_t hints, const char *value, size_t value_len, LY_D
             return ly_err_new(err, LY_EVALID, LYVE_DATA, NULL, NULL, "Invalid non-num64-encoded %s value \"%.*s\".",
                     lys_datatype2str(type), (int)value_len, value);
         }
-        *base = type_get_hints_base(hints);
+        if (hints & (LYD_VALHINT_DECNUM | LYD_VALHINT_OCTNUM | LYD_VALHINT_HEXNUM)) {
+            *base = type_get_hints_base(hints);
+        } else {
+            /* number encoded as a string (JSON), always decimal */
+            *base = LY_BASE_DEC;
+        }
         break;
     case LY_TYPE_STRING:
     case LY_TYPE_DEC64:
